@@ -85,7 +85,17 @@ void vf::run_case(Src &s, Ctx &c)
         setParamIfPresent(pl, "range", range);
     if (s.flag())
         setParamIfPresent(pl, "goal_bias", s.real(0.01, 0.5));
-    c.note("planner=%s seed=%u budget=%ld range=%.4g\n%s", pi.name, seed, budget, range, P->str().c_str());
+    std::string tuned;
+    try
+    {
+        tuned = tuneParams(s, pl);
+    }
+    catch (const ompl::Exception &e)
+    {
+        throw Skip{std::string("parameter value rejected: ") + e.what()};
+    }
+    c.count(tuned.empty() ? "params:defaults" : "params:tuned");
+    c.note("planner=%s seed=%u budget=%ld range=%.4g%s%s\n%s", pi.name, seed, budget, range, tuned.empty() ? "" : " params:", tuned.c_str(), P->str().c_str());
     c.count(std::string("planner:") + pi.name);
     c.count(std::string("scenario:") + scenarioName(P->scenario));
     c.count(std::string("space:") + (P->ps.kind == SP_RN ? "R^n" : P->ps.name().substr(0, P->ps.name().find('('))));
